@@ -104,6 +104,39 @@ structure SimpleQuery where
   _path_resolver : PathArg → Except Unit TinyFlux.Spec.PyV   -- any exception of the resolver is caught by the caller
   _test : TinyFlux.Spec.PyV → M Bool
 
+/-! ## `==` between operands of different static types (`_measurement != measurement` with an `Optional[str]`) -/
+class PyEq (α β : Type) where pyEq : α → β → Bool
+export PyEq (pyEq)
+instance {α} [BEq α] : PyEq α (Option α) := ⟨fun a o => match o with | none => false | some b => a == b⟩
+instance {α} [BEq α] : PyEq (Option α) α := ⟨fun o a => match o with | none => false | some b => b == a⟩
+
+/-! ## objects of the database layer that are not translated
+
+`IndexResult` (index.py, three set operations — `Generated/IndexTables.lean`) as the record of its two attributes; a
+storage object at the *list level*: the rows it holds (the decoded view: a point as it comes back from the storage's
+serialiser) and the rows appended to temporary storage. The byte / I/O level of `CSVStorage` is `Model/IO.lean`. -/
+structure IndexResult where
+  _items : List Nat
+  _index_count : Nat
+
+structure Storage where
+  _items : List TinyFlux.Spec.Point
+  _temp : List TinyFlux.Spec.Point
+
+namespace Storage
+/-- `for item in storage` -/
+def iter (s : Storage) : List TinyFlux.Spec.Point := s._items
+/-- `storage.append(rows, temporary=…)` -/
+def append (s : Storage) (rows : List TinyFlux.Spec.Point) (temporary : Bool) : M Storage :=
+  pure (if temporary then { s with _temp := s._temp ++ rows } else { s with _items := s._items ++ rows })
+/-- `storage._swap_temp_with_primary()`: at the list level it cannot fail (I/O faults: C13, `Model/IO.lean`) -/
+def _swap_temp_with_primary (s : Storage) : M Storage := pure { _items := s._temp, _temp := [] }
+/-- `storage.reset()` -/
+def reset (s : Storage) : M Storage := pure { s with _items := [] }
+def _deserialize_measurement (_ : Storage) (row : TinyFlux.Spec.Point) : String := row.meas
+def _deserialize_storage_item (_ : Storage) (row : TinyFlux.Spec.Point) : TinyFlux.Spec.Point := row
+end Storage
+
 /-! ## tuples -/
 def item0 {α β} (p : α × β) : α := p.1
 def item1 {α β} (p : α × β) : β := p.2
